@@ -109,6 +109,16 @@ func TestVerifC02(t *testing.T) {
 		fmt.Sscanf(d, "%d", &depth)
 	}
 	rep.Note("alphabet=%v depth=%d queries_per_step=%d", ops, depth, len(queries))
+	if kit.Thorough() && kit.Getenv("VERIF_DEPTH", "") == "" {
+		// complete to depth 4 over the full alphabet, then depth 5 and 6 over a reduced alphabet (overwrites, late
+		// data, two series, burst, flush, merge, compaction, reopen)
+		c02Explore(rep, scratch, ops, 4, queries, nil)
+		reduced := []string{"Wa", "Wc", "Wd", "We", "WB", "F", "MO", "LC", "RO"}
+		rep.Note("reduced alphabet for depth 5/6: %v", reduced)
+		c02Explore(rep, scratch, reduced, 5, queries, nil)
+		c02Explore(rep, scratch, []string{"Wc", "Wd", "F", "MO", "LC", "RO"}, 6, queries, nil)
+		return
+	}
 	c02Explore(rep, scratch, ops, depth, queries, nil)
 }
 
